@@ -2,7 +2,7 @@
 import rdflib
 from rdflib import BNode, Literal, URIRef
 
-from .. import enc, framework as F, shapes as S, evalcheck as EC, sparqlgen as SG, messagecheck as MC
+from .. import enc, framework as F, shapes as S, evalcheck as EC, sparqlgen as SG, messagecheck as MC, localnamecheck as LN
 from ..enc import EX, SH
 
 PROP = "C05"
@@ -122,9 +122,11 @@ def compound_path_family(rng, n):
 def both_extra(seed, tier):
     a = MC.run(F.rng_for(seed, PROP + "/messages"), 600 if tier == "quick" else 8000)
     b = compound_path_family(F.rng_for(seed, PROP + "/paths"), 30 if tier == "quick" else 400)
+    c = LN.run(F.rng_for(seed, PROP + "/localnames"), 400 if tier == "quick" else 5000)
     st = dict(a[0])
     st.update(b[0])
-    return st, a[1] + b[1], a[2] + b[2]
+    st.update(c[0])
+    return st, a[1] + b[1] + c[1], a[2] + b[2] + c[2]
 
 
 def main(tier, seed, replay=None):
@@ -148,10 +150,11 @@ def main(tier, seed, replay=None):
 
     return EC.standard_main(
         PROP, ["Props/C05.v"], tier, seed, modelled,
-        rule="case = 1-3 node/property shapes with sh:sparql constraints (8 SELECT templates with $this/$PATH/?value/?path/?failure/extra variables, message templates with {$var}/{?var}, sh:prefixes, deactivated) and SPARQL-based constraint components (ASK and SELECT validators with a parameter), optionally next to a core component; the solutions of every query for every candidate focus/value node are obtained by running the declared query directly through rdflib with the SHACL-SPARQL pre-bindings and handed to the model as data; %d further cases carry a query SHACL-SPARQL forbids (MINUS, VALUES, SERVICE, AS ?this, nested SELECT, in sh:sparql constraints and in ASK/SELECT validators of components, including re-binding the component's own parameter) and must end in a validation failure; message templates: both substitution sites on random templates (brace and sigil soup, unterminated and empty placeholders) and bindings (values with braces, backslashes, placeholder-like text) = the model's one-pass verbatim substitution" % len(screened),
+        rule="case = 1-3 node/property shapes with sh:sparql constraints (8 SELECT templates with $this/$PATH/?value/?path/?failure/extra variables, message templates with {$var}/{?var}, sh:prefixes, deactivated) and SPARQL-based constraint components (ASK and SELECT validators with a parameter), optionally next to a core component; the solutions of every query for every candidate focus/value node are obtained by running the declared query directly through rdflib with the SHACL-SPARQL pre-bindings and handed to the model as data; %d further cases carry a query SHACL-SPARQL forbids (MINUS, VALUES, SERVICE, AS ?this, nested SELECT, in sh:sparql constraints and in ASK/SELECT validators of components, including re-binding the component's own parameter) and must end in a validation failure; message templates: both substitution sites on random templates (brace and sigil soup, unterminated and empty placeholders) and bindings (values with braces, backslashes, placeholder-like text) = the model's one-pass verbatim substitution; the variable name of a parameter (SHACLParameter.localname) on random ASCII IRIs = Sparql/LocalName.v" % len(screened),
         what="results differ from 'one result per distinct solution, each with the messages of its own bindings' (Props.C05)",
         metamorphic=meta,
         extra_checks=lambda: both_extra(seed, tier),
-        extra_assumptions=["the message-template model (Sparql/Message.v) is hand-written; it is tied to SPARQLQueryHelper.bind_messages and ConstraintComponent._format_sparql_based_result_message by running both on random templates and bindings (Python's re module is the implementation's engine)",
+        extra_assumptions=["the parameter-name model (Sparql/LocalName.v) is hand-written; it is tied to SHACLParameter.localname by running the property's getter on random ASCII IRIs (Coq strings are byte strings)",
+                           "the message-template model (Sparql/Message.v) is hand-written; it is tied to SPARQLQueryHelper.bind_messages and ConstraintComponent._format_sparql_based_result_message by running both on random templates and bindings (Python's re module is the implementation's engine)",
                            "SPARQL evaluation is rdflib's (oracle); the regex screens for forbidden syntax are not modelled (differential only)"],
     )
